@@ -95,14 +95,19 @@ def poles(ctx, I, G):
     ident_arr(ctx, "C20.poles", "poles[default]:xvals == A[:,0,0]/|A[:,0,:]|", out[0], mkarr([e[g, 0] / nr[g] for g in range(N)]), loc)
 
 
-def lambert(ctx, I, G):
+def lambert(ctx, I, G, extra_args=(), extra_kwargs=None, tag="", loc=None):
     ctx.rule("C20.lambert", "lambert_equal_area: masked (|x|,|y| tiny) cells map to 0; elsewhere X = s·x, Y = s·y with the same "
-                            "factor s >= 0 and s^2·(x^2+y^2) == 1 - |z|")
-    loc = defloc(ctx, G + "lambert_equal_area")
+                            "factor s >= 0 and s^2·(x^2+y^2) == 1 - |z|; also as it is called from point_density for axial and non-axial data")
+    loc = loc or defloc(ctx, G + "lambert_equal_area")
     x, y, z = alg.sym("x"), alg.sym("y"), alg.sym("z")
-    X, Y = call_public(ctx, I, G + "lambert_equal_area", x, y, z)
+    from ..interp import RaiseSig
+    try:
+        X, Y = I.call(public(ctx, I, G + "lambert_equal_area"), (x, y, z) + tuple(extra_args), dict(extra_kwargs or {}))
+    except RaiseSig as r:
+        ctx.ob("C20.lambert", tag + "call", False, f"raises {r.exc.typename}", loc)
+        return
     X, Y = lift(X[0]), lift(Y[0])
-    ident(ctx, "C20.lambert", "azimuth preserved: X·y == Y·x", X * y, Y * x, loc)
+    ident(ctx, "C20.lambert", tag + "azimuth preserved: X·y == Y·x", X * y, Y * x, loc)
 
     def factor(v, base):
         # v == s * base with s a single select atom
@@ -115,14 +120,14 @@ def lambert(ctx, I, G):
         return sel[0]
     sx, sy = factor(X, x), factor(Y, y)
     ok = sx is not None and sx is sy
-    ctx.ob("C20.lambert", "same mask-selected factor on both coordinates", ok, f"X={short(X)} Y={short(Y)}", loc)
+    ctx.ob("C20.lambert", tag + "same mask-selected factor on both coordinates", ok, f"X={short(X)} Y={short(Y)}", loc)
     if ok:
         cond, masked_val, open_val = sx.args
-        ident(ctx, "C20.lambert", "masked cells project to the disk centre (factor 0)", masked_val, ZERO, loc)
-        ident(ctx, "C20.lambert", "squared radius: s^2·(x^2+y^2) == 1-|z|", open_val * open_val * (x * x + y * y), ONE - Abs(z), loc)
+        ident(ctx, "C20.lambert", tag + "masked cells project to the disk centre (factor 0)", masked_val, ZERO, loc)
+        ident(ctx, "C20.lambert", tag + "squared radius: s^2·(x^2+y^2) == 1-|z|", open_val * open_val * (x * x + y * y), ONE - Abs(z), loc)
         pos = all(c > 0 for c in open_val.t.values()) and all(a.pos or (isinstance(e_, int) and e_ % 2 == 0)
                                                               for m in open_val.t for a, e_ in m)
-        ctx.ob("C20.lambert", "factor is non-negative (a square root)", pos, f"s={short(open_val)}", loc)
+        ctx.ob("C20.lambert", tag + "factor is non-negative (a square root)", pos, f"s={short(open_val)}", loc)
         ck = repr(cond)
         leaves = []
 
@@ -134,7 +139,7 @@ def lambert(ctx, I, G):
                     walk(u)
         walk(cond)
         tiny = [lv for lv in leaves if lv[0] in ("Lt", "LtE") and isinstance(lv[2], E) and lv[2].is_const() and 0 < lv[2].cval() <= alg.Fr(1, 10**9)]
-        ctx.ob("C20.lambert", "mask tests both |x| and |y| against a tiny constant",
+        ctx.ob("C20.lambert", tag + "mask tests both |x| and |y| against a tiny constant",
                any(lv[1] == Abs(x) for lv in tiny) and any(lv[1] == Abs(y) for lv in tiny), ck[:200], loc)
     ctx.floor("C20.lambert", 5)
 
@@ -197,7 +202,25 @@ def density(ctx, I):
         t = tc[0].targets[0]
         names = [e.id for e in t.elts] if isinstance(t, ast.Tuple) else []
     ctx.ob("C20.density", "grid points are the Lambert projection of the same counters", bool(lam) and bool(names)
-           and [a.id for a in lam[0].args if isinstance(a, ast.Name)] == names, f"to_cartesian -> {names}", loc)
+           and [a.id for a in lam[0].args[:3] if isinstance(a, ast.Name)] == names, f"to_cartesian -> {names}", loc)
+    # the projection as it is called here, for axial and for directed data: grid points stay in the closed unit disk (r^2 = 1-|z|)
+    if lam:
+        from ..interp import Env
+        for axial in (True, False):
+            env = Env(mod)
+            env.vars["axial"] = axial
+            try:
+                ea = [I.ev(a, env) for a in lam[0].args[3:]]
+                ek = {k.arg: I.ev(k.value, env) for k in lam[0].keywords}
+            except Exception as ex:
+                ctx.ob("C20.density", f"projection call arguments (axial={axial})", "inconclusive", f"cannot evaluate the extra arguments of the projection call: {ex}", loc)
+                continue
+            if axial and not ea and not ek:
+                continue   # plain three-argument call: already decided by C20.lambert
+            lambert(ctx, I, "pydrex.geometry.", ea, ek, tag=f"as called from point_density(axial={axial}): ",
+                    loc=f"{ctx.program.relpath(mod.path)}:{lam[0].lineno}")
+            if not ea and not ek:
+                break
     # weights multiply the kernel values before they are summed
     wmul = [n for n, s in cfg.stmt.items() if isinstance(s, (ast.AugAssign, ast.Assign)) and "weights" in ast.unparse(getattr(s, "value", s)) and
             (isinstance(s, ast.AugAssign) and isinstance(s.op, ast.Mult) or isinstance(getattr(s, "value", None), ast.BinOp))]
